@@ -236,6 +236,18 @@ def interval(body, e, depth=0, env=None):
                 args[root[1] - 1] = pe[1]
                 return interval(pe[0], subst_args(e, args), depth + 1, env)
     if k == 'field':
+        col = _array_column(e)
+        if col is not None:
+            out = None
+            for n_, c_ in enumerate(col):
+                iv = interval(body, c_, depth + 1, env)
+                if iv is None:
+                    out = None
+                    break
+                out = iv if n_ == 0 else union(out, iv)
+            if out is not None:
+                return out
+    if k == 'field':
         # payload of Some(position(..)): an index into the iterated collection
         b_ = e[1]
         if b_[0] == 'downcast' and b_[2] == 'Some':
@@ -337,3 +349,54 @@ def param_interval_from_callers(body, idx, depth, env):
         return None
     _PARAM_CACHE[key] = out
     return out
+
+
+def _array_column(e):
+    """`(next(into_iter(ARRAY)) as Some).0 [.#k]` / `ARRAY[i] [.#k]` where ARRAY is an array literal: the list of the
+    corresponding component of every element (iteration over a literal table), else None"""
+    path = []
+    x = e
+    for _ in range(12):
+        if x[0] in ('ref', 'deref'):
+            x = x[1]
+        elif x[0] == 'field':
+            path.append(x[2].lstrip('#'))
+            x = x[1]
+        elif x[0] == 'downcast':
+            x = x[1]
+        elif x[0] == 'index':
+            x = x[1]
+            path.append('elem')
+        elif x[0] == 'call' and x[2] and re.search(r'Iterator>?::next$|::into_iter$|::iter$|Deref>?::deref$|::as_slice$|Iterator for core::array::IntoIter', x[1]):
+            if re.search(r'Iterator>?::next$|IntoIter.*::next$', x[1]):
+                # the Option payload projection `.0` that precedes belongs to Some(..)
+                if path and path[-1] == '0':
+                    path.pop()
+                    path.append('elem')
+            x = x[2][0]
+        elif x[0] == 'phi':
+            # loop-carried iterator: take the non-loop branch
+            br = [a for a in x[2] if a[0] != 'loop']
+            if len(br) != 1:
+                return None
+            x = br[0]
+        else:
+            break
+    if x[0] != 'aggr' or x[1] != 'array' or 'elem' not in path:
+        return None
+    comps = [p_ for p_ in reversed(path)]
+    # projections after 'elem'
+    i = comps.index('elem')
+    proj = comps[i + 1:]
+    out = []
+    for el in x[2]:
+        cur = el
+        for pj in proj:
+            while cur[0] in ('ref', 'deref'):
+                cur = cur[1]
+            if cur[0] == 'aggr' and pj.isdigit() and int(pj) < len(cur[2]):
+                cur = cur[2][int(pj)]
+            else:
+                return None
+        out.append(cur)
+    return out or None
